@@ -24,18 +24,6 @@ pub fn dev_points(sizes: &[usize], k: usize) -> Vec<Vec<usize>> {
     out
 }
 
-/// mixed-radix decode: returns digits (least significant first) of `idx` for the given radices
-pub fn radix(mut idx: u64, radices: &[u64]) -> Vec<usize> {
-    radices
-        .iter()
-        .map(|r| {
-            let d = idx % r;
-            idx /= r;
-            d as usize
-        })
-        .collect()
-}
-
 /// Blocks of cases with prefix sums: global index -> (block, local index)
 pub struct Blocks<B> {
     pub blocks: Vec<B>,
